@@ -167,7 +167,11 @@ class Tokenizer:
     def main_loop(self):
         char: Optional[str] = self.peek(0)
 
-        if char in self._special_characters:
+        if type(self.peek(-1)) is Colon and (char in digits or char == "_"):
+            # Label for an element that starts with a digit or an underscore
+            self.identifier_or_label()
+
+        elif char in self._special_characters:
             self.consume(self.pop())
             self.push(self._special_characters[char])
 
